@@ -272,5 +272,11 @@ func (*treePipeline) handlePipelineErr(ctx context.Context, echs ...<-chan error
 			return nil
 		})
 	}
-	return eg.Wait()
+	if err := eg.Wait(); err != nil {
+		return err
+	}
+	// A reader whose channel is already closed when the context is cancelled may take
+	// either branch of its select; if all of them saw "closed" the cancellation would
+	// be reported as success although stages stopped early.
+	return ctx.Err()
 }
